@@ -10,6 +10,14 @@ KNOWN_POS = {"wild_deref": "C11-wild-deref"}
 # (target, form) -> known finding: the cell is rejected in some positions for the recorded reason
 KNOWN_FORMS = {("str_ref", "str_eq"): "C11-eq-on-a-string-slice"}
 
+# closure forms over values that are not Copy: where the asserted value is a PLACE handed over by value (the root expression, a
+# field / index / deref chain) the closure call moves it and the later mention for the message is a use after move (E0382 /
+# E0507) - the recorded finding C11-closure-by-value seen from its other side.  Everywhere else (destructured bindings, results
+# of calls and methods, references) these forms must be accepted and give the same verdict as on a struct field.
+CLOSURE_NC_FORMS = {("string", "closure_nc"), ("string", "closure_nc_move"), ("vec", "closure_vec"), ("struct", "closure_struct"), ("opt_string", "closure_opt")}
+BY_VALUE_PLACES = {"root", "root_field_expr", "root_via_macro", "root_deref", "nested_field", "tuple_index_op", "index_op", "deref_op", "deref2_op",
+                   "wild_nested", "wild_index"}
+
 WITNESS_CLOSURE = {
     "id": "C11-closure-by-value",
     "what": "closure patterns receive the value expression by value: the parameter is T at the root / after field operations and &T "
@@ -133,6 +141,10 @@ def run(res):
             if pos in KNOWN_POS and KNOWN_POS[pos] in kf and oc.startswith("reject"):
                 known_hits[KNOWN_POS[pos]] = known_hits.get(KNOWN_POS[pos], 0) + 1
                 continue
+            if ((key[0], key[1]) in CLOSURE_NC_FORMS and pos in BY_VALUE_PLACES and WITNESS_CLOSURE["id"] in kf
+                    and (oc.startswith("reject:E0382") or oc.startswith("reject:E0507"))):
+                known_hits["closure-moves-a-place"] = known_hits.get("closure-moves-a-place", 0) + 1
+                continue
             if (key[0], key[1]) in KNOWN_FORMS and KNOWN_FORMS[(key[0], key[1])] in kf and oc.startswith("reject:E0277"):
                 known_hits[KNOWN_FORMS[(key[0], key[1])]] = known_hits.get(KNOWN_FORMS[(key[0], key[1])], 0) + 1
                 continue
@@ -155,6 +167,7 @@ def run(res):
     if known_hits.get("C11-wild-deref"):
         res.known.append("`*field` inside a wildcard struct dereferences one level more than in a named struct: `_ { *bx: 7, .. }` on "
                          "Box<i32> is rejected (E0614) where `W { *bx: 7, .. }` is accepted (%d matrix cells)" % known_hits["C11-wild-deref"])
+    res.streams["closure_forms_over_noncopy_values"] = {"cells_rejected_where_a_place_is_handed_over_by_value (the recorded finding C11-closure-by-value)": known_hits.get("closure-moves-a-place", 0)}
     # closures: known finding, replayed
     srcs = [matrix.program("i32", pos, pat) for pos, pat in closure_cells()]
     out = e2e.compile_many(srcs, run=True, tag="c11c")
